@@ -4,6 +4,7 @@ import Psa.Eval
 import Psa.Generated.Tables
 import Psa.Generated.Facts
 import Psa.StdEval
+import Psa.Extract
 /-! Driver side of the `admit` op: decode configuration / request / world, run `validate`, encode the observables. -/
 namespace PSA.IO
 open Lean PSA
@@ -18,7 +19,12 @@ def obj (j : Json) : R (Except Unit Obj) := do
   match (fldD j "kind").getStr? with
   | .ok "pod" => return .ok (.pod (← podObj (fldD j "pod")))
   | .ok "namespace" => return .ok (.ns (strD j "name") (← kvs (fldD j "labels")))
-  | .ok "controller" => return .ok (.controller (← optOf podObj (fldD j "template")))
+  | .ok "controller" =>
+    let t ← optOf podObj (fldD j "template")
+    -- with the workload kind stated ("ctl": the resource), the template goes through the model's ExtractPodSpec
+    match Extract.WKind.ofResource (strD j "ctl") with
+    | some k => return .ok (Extract.toObj ⟨k, t⟩)
+    | none => return .ok (.controller t)
   | .ok "other" => return .ok .other
   | _ => return .ok .nil
 
